@@ -667,7 +667,7 @@ class Interp:
             lo, hi = st.marks[int(idx)]
         if hi != 0:
             self.report("T1", origin.split(" `")[0], origin.split(" `", 1)[1].rstrip("`") if " `" in origin else origin,
-                        f"a plain ValueError raised at {origin} is caught by `except {hname}` in {tfn} and parsing "
+                        f"a plain ValueError / give-up signal raised at {origin} is caught by `except {hname}` in {tfn} and parsing "
                         f"continues although {lo}..{'many' if hi == INF else hi} token(s) consumed in the try body were "
                         f"not sent back: the statement is silently dropped",
                         node=None, handler=f"{tfn} except {hname}")
@@ -715,7 +715,9 @@ class Interp:
                     st2 = st2.set("$degraded", "TRUE")
                 if h.name:
                     st2 = st2.set(h.name, "E:" + e)
-                if e == "ValueError" and self.cur[-1][0] == "parser":
+                if e in ("ValueError", "Exception") and self.cur[-1][0] == "parser":
+                    # ("Exception" is the signal the repair hooks raise to say "not for me": like a plain ValueError it
+                    # promises that the tokens it looked at were put back)
                     st2 = st2.set("$t1", f"{len(st2.marks) - 1}|{tfn}|try|{hname}|{origin}")
                 ho = self.block(h.body, {st2})
                 # T2P: a catch-all clause (Exception / BaseException / bare -- not one that names ParseError) takes a
